@@ -248,6 +248,14 @@ func (s *grpcServer) UpdateActionResult(ctx context.Context,
 		return nil, err
 	}
 
+	// Inlined blobs are stored in the CAS under the digests given next to
+	// them. Refuse the update before anything is stored if they don't match.
+	err = checkInlinedBlobs(req.ActionResult)
+	if err != nil {
+		s.accessLogger.Printf("%s %s %s", logPrefix, req.ActionDigest.Hash, err)
+		return nil, status.Error(codes.InvalidArgument, err.Error())
+	}
+
 	// Ensure that the serialized ActionResult has non-zero length.
 	addWorkerMetadataGRPC(ctx, req.ActionResult)
 
@@ -348,6 +356,39 @@ func (s *grpcServer) UpdateActionResult(ctx context.Context,
 	// request, in order to follow this standard method style guide:
 	// https://cloud.google.com/apis/design/standard_methods
 	return req.ActionResult, nil
+}
+
+// Return an error if an inlined blob does not have the digest that
+// accompanies it. Inlined blobs without a digest are fine, their
+// digest is calculated when they are stored.
+func checkInlinedBlobs(ar *pb.ActionResult) error {
+	check := func(what string, data []byte, d *pb.Digest) error {
+		if len(data) == 0 || d == nil {
+			return nil
+		}
+		hash := sha256.Sum256(data)
+		if int64(len(data)) != d.SizeBytes || hex.EncodeToString(hash[:]) != d.Hash {
+			return fmt.Errorf("inlined %s does not match its digest %s/%d", what, d.Hash, d.SizeBytes)
+		}
+		return nil
+	}
+
+	for _, f := range ar.OutputFiles {
+		if f == nil {
+			continue
+		}
+		err := check("contents of output file "+f.Path, f.Contents, f.Digest)
+		if err != nil {
+			return err
+		}
+	}
+
+	err := check("stdout", ar.StdoutRaw, ar.StdoutDigest)
+	if err != nil {
+		return err
+	}
+
+	return check("stderr", ar.StderrRaw, ar.StderrDigest)
 }
 
 func addWorkerMetadataGRPC(ctx context.Context, ar *pb.ActionResult) {
